@@ -24,6 +24,9 @@ CHECKS["C18"] = ("property-based testing (proptest) against call counters of an 
 CHECKS["C11"] = ("property-based testing (proptest): step sequence and first trial step observed through an instrumented IVP; budgeted run vs unbudgeted twin (bit-identical prefix)",
          "Generated slow problems where the controller wants steps longer than max_step; accepted-step lengths from the events hook, first trial step from recorded right-hand-side times, step budget by differential comparison with the unbudgeted run.",
          "Slack 1e-12 relative/absolute on step lengths; off-by-one tolerance in where solvers test the budget.", "DESIGN.md §4 C11")
+CHECKS["C19"] = ("stateful property-based testing (proptest): scripted callback histories (Interrupt / no-op / doubling at generated indices) against the undisturbed history of the same low-level solver",
+         "Histories over all six low-level solvers with a recording SolOut: first-call/contiguity/interpolant-endpoint invariants on every callback, Interrupt stops without further evaluations (counted by the instrumented IVP), untouched ModifiedSolution is a bit-exact no-op, doubling a linear homogeneous state doubles everything after it bit-exactly for explicit methods.",
+         "BDF (history restart) and implicit doubling only to tolerance; contiguity to 8 ulp.", "DESIGN.md §4 C19")
 PENDING = {}
 
 def main():
